@@ -318,6 +318,66 @@ class World:
             res.violation(f"C09|rerun-differs|{self.backend}", f"running the same Program object ({self.frs}) again on a fresh engine gives a different state: {why}", case)
 
 
+# ----------------------------------------------------------------------------- after a reset: differential against a fresh engine
+# The state key merges "engine after reset()" with "fresh engine" - which is exactly what the property promises, so it is
+# checked here instead of assumed: after every explored reset a fixed set of continuations is run on the reset engine (the
+# history is replayed once per continuation) and on a fresh one; outcomes (states, refusals, measured values left in the user's
+# registers) must agree.  All measurements in the continuations are post-selected, hence deterministic.
+RESET_PROBES = [
+    (("prep",), ("ffprev",)),  # feed-forward of a value nobody measured since the reset: refused by a fresh engine
+    (("meas",), ("loss",), ("ffprev",)),
+    (("prep", "newdel"), ("delspare",)),
+    (("loss2",),),
+]
+_FRESH = {}
+
+
+def run_probe(w, probe):
+    out, last = [], w.last
+    for frs in probe:
+        P = build(last, list(frs))
+        with warnings.catch_warnings():
+            warnings.simplefilter("ignore")
+            try:
+                r = w.eng.run(P, args=_args(P))
+            except Exception as e:  # noqa: BLE001
+                out.append(("raises", type(e).__name__))
+                break
+        last = P
+        vals = np.array([np.nan if P.reg_refs[k].val is None else complex(np.ravel(P.reg_refs[k].val)[0]) for k in sorted(P.reg_refs)], dtype=complex)
+        out.append(("ok", state_data(w.backend, r.state) + [vals]))
+    return out
+
+
+def same_outcome(a, b):
+    if [x[0] for x in a] != [x[0] for x in b]:
+        return False, f"{[x[0] if x[0] == 'ok' else x for x in a]} vs {[x[0] if x[0] == 'ok' else x for x in b]}"
+    for k, (x, y) in enumerate(zip(a, b)):
+        if x[0] == "raises":
+            if x != y:
+                return False, f"segment {k}: {x} vs {y}"
+            continue
+        xa = [np.nan_to_num(np.asarray(v, dtype=complex), nan=-77.0) for v in x[1]]
+        ya = [np.nan_to_num(np.asarray(v, dtype=complex), nan=-77.0) for v in y[1]]
+        ok, why = same(xa, ya)
+        if not ok:
+            return False, f"segment {k}: {why}"
+    return True, ""
+
+
+def reset_probes(backend, hist, res, case):
+    for k, probe in enumerate(RESET_PROBES):
+        if (backend, k) not in _FRESH:
+            _FRESH[(backend, k)] = run_probe(World(backend), probe)
+        w = rebuild(backend, hist + (("reset",),))
+        got = run_probe(w, probe)
+        res.stats["after_reset_continuations"] += 1
+        ok, why = same_outcome(got, _FRESH[(backend, k)])
+        if not ok:
+            res.violation(f"C09|after-reset-differs-from-fresh|{backend}", f"history {[list(e) for e in hist]} then reset(): running the segments {[list(f) for f in probe]} gives {why} (reset engine vs fresh engine; states, refusals and the measured values left in the program's registers are compared)", dict(case, probe=k))
+            return
+
+
 def events(backend, quick):
     evs = [("reset",)]
     fr = avail(backend)
@@ -380,6 +440,8 @@ def expand(task):
                 continue
             if ok:
                 w.rerun_check(res, case)
+                if ev[0] == "reset":
+                    reset_probes(backend, hist, res, case)
                 res.extra.append(((backend, w.frs, w.calls > 0), hist + (ev,)))
     return res
 
@@ -469,7 +531,7 @@ def run(ctx):
     ctx.cov.update({"states": total, "transitions": ctx.n, "traces_validated_against_impl": ctx.n, "configurations": per, "evaluations": ctx.n, "distinct_nontrivial": total,
                     "fragments": list(FRAGS), "raising_fragments": list(BAD)})
     ctx.assumptions += [
-        "state key = (backend, fragments executed since the last reset, engine has run): after a passed oracle the engine state is a function of it",
+        "state key = (backend, fragments executed since the last reset, engine has run): after a passed oracle the engine state is a function of it; merging 'after reset()' with 'fresh' is not assumed but checked: after every explored reset four fixed continuations (incl. a feed-forward of a value nobody measured since the reset, a three-segment feed-forward, mode creation/deletion) are run on the reset engine and on a fresh one and must agree in states, refusals and measured values left in the registers",
         "reset() of an engine that never ran is not explored (the property speaks about behaviour after a reset of a used engine)",
         "snapshot excludes Program.locked, bound free-parameter values and RegRef.val, which running is documented to set",
     ]
@@ -480,6 +542,9 @@ def replay(case):
     if "ancilla_history" in case:
         r = ancilla_histories(Res())
         return [(s, wh) for s, wh, c in r.viol if c["ancilla_history"] == case["ancilla_history"]]
+    if "probe" in case:
+        reset_probes(case["backend"], tuple(tuple(e) for e in case["hist"]), res, case)
+        return [(s, wh) for s, wh, _ in res.viol]
     w = rebuild(case["backend"], tuple(tuple(e) for e in case["hist"]))
     ok = w.apply(tuple(case["event"]), res, case)
     if ok:
